@@ -406,14 +406,16 @@ Section Soundness.
     unfold child_schema, merge_hints in H. simpl in H.
     rewrite map_app, !map_map in H. apply in_app_or in H. destruct H as [H|H].
     - apply in_map_iff in H. destruct H as [x [E Hx]].
-      assert (fst x = k) by (destruct (mem_str (fst x) (c_newconsts c)); simpl in E; auto).
-      subst k. apply in_app_or in Hx. destruct Hx as [Hx|Hx].
+      assert (Ek : fst x = k).
+      { destruct (mem_str (fst x) (c_newconsts c)); simpl in E; auto. }
+      clear E. apply in_app_or in Hx. destruct Hx as [Hx|Hx].
       + apply in_map_iff in Hx. destruct Hx as [b [Eb Hb]]. left.
-        apply has_key_In. replace (fst x) with (fst b).
-        * now apply in_map.
-        * subst x. now destruct (lookup (fst b) (c_own c)).
+        apply has_key_In.
+        assert (Eq : fst b = k).
+        { rewrite <- Ek, <- Eb. now destruct (lookup (fst b) (c_own c)). }
+        rewrite <- Eq. now apply in_map.
       + right. left. apply filter_In in Hx. destruct Hx as [Hx _].
-        exists (snd x). now destruct x.
+        exists (snd x). rewrite <- Ek. now destruct x.
     - right. right. simpl in H. apply in_map_iff in H. destruct H as [x [E Hx]].
       subst. apply filter_In in Hx. tauto.
   Qed.
@@ -456,11 +458,14 @@ Section Soundness.
         rewrite Hnc. simpl. rewrite andb_true_r.
         apply has_key_In. change n with (fst (n, hp)). now apply in_map. }
       specialize (HO _ Hact). simpl in HO. rewrite D in HO. simpl in HO.
-      rewrite (lookup_NoDup n hp (s_hints p) ND Hin) in HO.
+      assert (HL : lookup n (s_hints p) = Some hp) by (apply lookup_NoDup; auto).
+      rewrite HL in HO.
       unfold subtype_hint in HO.
       destruct (Bool.eqb (fst h) (fst hp)); try discriminate.
       destruct (OK n h hp EL Hin) as [W1 [W2 SP]].
-      destruct (lookup n kvs); eapply subtype_sound; eauto.
+      destruct (lookup n kvs) as [v|];
+        [apply (subtype_sound (snd h) (snd hp) W1 W2 SP HO v HF)
+        |apply (subtype_sound (snd h) (snd hp) W1 W2 SP HO JNull HF)].
     - (* extra fields *)
       destruct (extra_forbids (s_extra p)) eqn:EF; auto. simpl.
       unfold check_new in HN. apply andb_true_iff in HN. destruct HN as [_ HN].
@@ -470,9 +475,134 @@ Section Soundness.
       unfold keys_known in *. rewrite forallb_forall in *.
       intros kv Hkv. specialize (HX kv Hkv).
       rewrite has_key_fields_of.
-      destruct (child_names p c (fst kv) HX) as [H|[[h H]|H]]; auto.
-      + apply (HOwn (fst kv, h) H).
-      + apply (HCo _ H).
+      destruct (child_names p c (fst kv) HX) as [H|[[h H]|H]]; auto;
+        try (apply (HOwn (fst kv, h) H)); try (apply (HCo _ H)).
+  Qed.
+
+
+  Lemma accepts_except_nil : forall c e f j,
+    accepts_except pred [] (TObj c e f) j = accepts pred (TObj c e f) j.
+  Proof. intros. reflexivity. Qed.
+
+  (** without declared overrides the serialised child instance is accepted by the parent
+      and by every class of the world the parent derives from *)
+  Corollary checked_child_ancestors : forall p c,
+    check_child pred p c = true -> c_declared c = [] ->
+    NoDup (map fst (s_hints p)) ->
+    (forall n, In n (c_newconsts c) -> has_key n (s_hints p) = false) ->
+    overrides_ok p c ->
+    W (obj_of p) ->
+    forall ca ea fa, W (TObj ca ea fa) -> chain_le (s_chain p) ca = true ->
+    forall d, nf pred (obj_of (child_schema p c)) d = true ->
+              accepts pred (obj_of p) d = true /\ accepts pred (TObj ca ea fa) d = true.
+  Proof.
+    intros p c HC HD ND HNC OK Wp ca ea fa Wa HL d Hd.
+    assert (HP : accepts pred (obj_of p) d = true).
+    { pose proof (checked_child_sound p c HC ND HNC OK d (nf_accepts _ _ Hd)) as H.
+      rewrite HD in H. exact H. }
+    split; auto.
+    unfold obj_of in *.
+    apply (W_conf (s_chain p) (s_extra p) (fields_of (s_hints p)) ca ea fa); auto.
   Qed.
 
 End Soundness.
+
+(** ** The two premises are needed, and the pinned class check is too weak *)
+
+(** a blank string literal is admitted below plain [str] although [str] fields strip and
+    require one character (outside the property's grammar: plain [str] is not strict) *)
+Lemma subtype_unsafe_refuted :
+  exists pred a b j,
+    subtype pred a b = true /\ nf pred a j = true /\ accepts pred a j = true /\
+    accepts pred b j = false /\ safe_pair a b = false.
+Proof.
+  exists (fun _ _ => false), (TOpt (TLit [LStr " "])), (TOpt (TPrim false KStr)), (JStr " ").
+  vm_compute. repeat split.
+Qed.
+
+(** a phantom subclass whose own pattern does not imply the pattern of its base class
+    (pinned [QualHashsumStr(HashsumStr)]) is admitted below the base class *)
+Lemma phantom_narrowing_needed_refuted :
+  exists pred a b j,
+    subtype pred a b = true /\ safe_pair a b = true /\
+    accepts pred a j = true /\ accepts pred b j = false.
+Proof.
+  exists (fun p _ => N.eqb p 3), (TPhantom [3; 2; 0]%N), (TPhantom [2; 0]%N), (JStr "sha256:ff").
+  vm_compute. repeat split.
+Qed.
+
+(** the pinned tree lets [@add_const_fields] add a field below a parent that forbids
+    extra fields *)
+Definition refute_parent : schema :=
+  mkschema [1%N] EForbid [("a", (false, TOpt (TPrim true KInt)))] [].
+Definition refute_child : childdef := mkchild 2%N EForbid [] [] ["k"].
+
+Lemma check_child_pinned_refuted :
+  exists pred p c j,
+    check_child_pinned pred p c = true /\ c_declared c = [] /\
+    nf pred (obj_of (child_schema p c)) j = true /\
+    accepts pred (obj_of (child_schema p c)) j = true /\
+    accepts pred (obj_of p) j = false /\
+    check_child pred p c = false.
+Proof.
+  exists (fun _ _ => false), refute_parent, refute_child, (JObj [("k", JStr "v")]).
+  vm_compute. repeat split.
+Qed.
+
+(** ** Closed forms of the premises, and the property's own grammar *)
+
+(** every class of the world conforms to the classes of the world it derives from *)
+Definition conforming (pred : N -> string -> bool) (W : ty -> Prop) : Prop :=
+  forall c1 e1 f1 c2 e2 f2,
+    W (TObj c1 e1 f1) -> W (TObj c2 e2 f2) -> chain_le c1 c2 = true ->
+    forall j, accepts pred (TObj c1 e1 f1) j = true -> accepts pred (TObj c2 e2 f2) j = true.
+
+(** strict primitives, phantom types, Literal, Optional/Union, List, Set, nested schemas *)
+Fixpoint strict_ty (t : ty) : bool :=
+  match t with
+  | TAny => false
+  | TPrim s _ => s
+  | TUnion ts => forallb strict_ty ts
+  | TList t' | TSet t' => strict_ty t'
+  | _ => true
+  end.
+
+Lemma strict_pbool_free : forall a, strict_ty a = true -> pbool_free a = true.
+Proof.
+  induction a using ty_ind'; simpl; intros HS; auto.
+  - destruct s; try discriminate. reflexivity.
+  - rewrite forallb_forall in *. rewrite Forall_forall in H. auto.
+Qed.
+
+Lemma strict_pstr_free : forall b, strict_ty b = true -> pstr_free b = true.
+Proof.
+  induction b using ty_ind'; simpl; intros HS; auto.
+  - destruct s; try discriminate. reflexivity.
+  - rewrite forallb_forall in *. rewrite Forall_forall in H. auto.
+Qed.
+
+Lemma strict_safe : forall a b, strict_ty a = true -> strict_ty b = true -> safe_pair a b = true.
+Proof.
+  intros a b Ha Hb. unfold safe_pair.
+  now rewrite (strict_pbool_free a Ha), (strict_pstr_free b Hb).
+Qed.
+
+Theorem subtype_sound_strict : forall pred W, conforming pred W ->
+  forall a b, wf pred W a -> wf pred W b -> strict_ty a = true -> strict_ty b = true ->
+  subtype pred a b = true ->
+  forall d, nf pred a d = true -> accepts pred b d = true.
+Proof.
+  intros pred W HW a b Wa Wb Sa Sb HT d Hd.
+  apply (subtype_sound_dump pred W HW a b Wa Wb (strict_safe a b Sa Sb) HT d Hd).
+Qed.
+
+(** the Annotated wrapper of a hint changes nothing about acceptance *)
+Theorem subtype_hint_sound : forall pred W, conforming pred W ->
+  forall (a b : hint), wf pred W (snd a) -> wf pred W (snd b) -> safe_pair (snd a) (snd b) = true ->
+  subtype_hint pred a b = true ->
+  forall j, accepts pred (snd a) j = true -> accepts pred (snd b) j = true.
+Proof.
+  intros pred W HW a b Wa Wb HS HT. unfold subtype_hint in HT.
+  destruct (Bool.eqb (fst a) (fst b)); try discriminate.
+  apply (subtype_sound pred W HW (snd a) (snd b) Wa Wb HS HT).
+Qed.
